@@ -24,9 +24,8 @@
    implementation sometimes errors there).  Without those flags a kind clash
    clears the old content and b's value wins.
 
-   Keys are compared literally.  The implementation matches b's keys as glob
-   patterns; that deviation is modelled separately (wild_flat, below) and
-   [has_wild b] marks the inputs on which [merge] does not describe it. *)
+   Keys are compared literally: * and ? in a key of b are ordinary characters
+   (traversePreferences.ExactKeyMatch, set for merge and DeeplyAssign). *)
 From YQ Require Import Base.Str Model.Node.
 
 Record flags := mkFlags { f_append : bool; f_deep : bool; f_existing : bool; f_new : bool }.
@@ -153,72 +152,15 @@ Definition merge_step (fl : flags) (acc : option node) (d : node) : option node 
 Definition merge_all (fl : flags) (docs : list node) : option node :=
   fold_left (merge_step fl) docs (Some (Map [])).
 
-(* ---------- keys of b that the implementation reads as patterns ---------- *)
-Fixpoint has_wild (n : node) : bool :=
-  match n with
-  | Scalar _ _ => false
-  | Seq l => (fix go (l : items) : bool := match l with [] => false | (_, x) :: r => has_wild x || go r end) l
-  | Map es => (fix go (l : entries) : bool := match l with [] => false | (k, x) :: r => is_wild k || has_wild x || go r end) es
-  end.
-
-(* matchKey / deepMatch (matchKeyString.go): `*` any run, `?` any one character *)
-Fixpoint glob (p s : str) {struct p} : bool :=
-  match p with
-  | [] => match s with [] => true | _ => false end
-  | c :: p' =>
-      if c =? 42 then
-        (fix star (s : str) : bool :=
-           glob p' s || match s with [] => false | _ :: s' => star s' end) s
-      else match s with
-           | [] => false
-           | d :: s' => ((c =? 63) || (c =? d)) && glob p' s'
-           end
-  end.
-
-(* What the implementation does for flat maps of scalars without flags, keys
-   of b read as patterns: the traversal for the key node and the one for the
-   value node each return the matching entries collapsed by key text (the
-   last of equal keys survives, orderedmap keyed by GetKey); the first renames
-   the keys it returns to the pattern, the second overwrites the values it
-   returns.  No match: the entry is appended. *)
-Fixpoint later_same (k : str) (r : entries) : bool :=
-  match r with [] => false | (k', _) :: r' => str_eqb k' k || later_same k r' end.
-
-Fixpoint wild_rename (p : str) (es : entries) : entries :=
-  match es with
-  | [] => []
-  | (k, v) :: r => (if glob p k && negb (later_same k r) then (p, v) else (k, v)) :: wild_rename p r
-  end.
-
-Fixpoint wild_set (p : str) (vb : node) (es : entries) : entries :=
-  match es with
-  | [] => []
-  | (k, v) :: r => (k, if glob p k && negb (later_same k r) then vb else v) :: wild_set p vb r
-  end.
-
-Fixpoint wild_flat (acc eb : entries) : entries :=
-  match eb with
-  | [] => acc
-  | (p, vb) :: r =>
-      if existsb (fun kv => glob p (fst kv)) acc
-      then wild_flat (wild_set p vb (wild_rename p acc)) r
-      else wild_flat (acc ++ [(p, vb)]) r
-  end.
-
 (* ---------- observables for the correspondence check ---------- *)
 Definition ok_line (n : node) : str := [79; 75; 10] ++ ser_node n ++ [10].       (* OK\n<node>\n *)
 Definition open_tag : str := [79; 80; 69; 78].                                   (* OPEN *)
-Definition wild_tag : str := [87; 73; 76; 68].                                   (* WILD *)
 
 Definition flags_of (n : N) : flags :=
   mkFlags (N.testbit n 0) (N.testbit n 1) (N.testbit n 2) (N.testbit n 3).
 
 Definition merge_run (fl : N) (a b : node) : str :=
-  if has_wild b then wild_tag else
   match merge (flags_of fl) a b with Some r => ok_line r | None => open_tag end.
 
 Definition merge_all_run (fl : N) (docs : list node) : str :=
-  if existsb has_wild docs then wild_tag else
   match merge_all (flags_of fl) docs with Some r => ok_line r | None => open_tag end.
-
-Definition wild_run (ea eb : entries) : str := ok_line (Map (wild_flat ea eb)).
